@@ -6,6 +6,7 @@ the volume cache are co-updated (C13.maps, C13.inverse); (c) EGRID writer and re
 element types and the length conversion (C13.egrid).  Not decided: volumes, centres, equivalence of input
 forms, additivity (numeric).
 """
+import os
 import re
 
 from verif import core, cow
@@ -592,6 +593,66 @@ def run(chk):
                 chk.violation(r_ik, key, "%s decodes the %s entries with %s, whose parameter is an ACTIVE cell index (it subscripts %s / is bounded by %s); the file stores GLOBAL cell numbers (EclipseGrid::save writes cell + 1), so with inactive cells every NNC end point behind the first inactive cell comes back as another cell or throws" % (f["q"], arr_of[arr], call["fn"].split("::")[-1], a2g, nact), f["file"], n["l"])
     if uses < 2:
         raise core.AnalysisBroken("EclIO::EGrid: fewer than 2 uses of the NNC1/NNC2 members found")
+
+    # ---- C13.axis: an index used as I, J or K is compared with the extent of its own axis
+    r_axs = chk.rule("C13.axis", "in the grid code (EclipseState/Grid, io/eclipse/EGrid), a variable that is handed to an (i, j, k) interface - getGlobalIndex, cellActive, getCellCenter, ... (every function whose first three parameters are declared i, j, k) - as the first, second or third argument is compared only with the extent of that axis: getNX() for the first, getNY() for the second, getNZ() for the third (directly or through a local initialised from it)", floor=8)
+    import glob as _glob
+    groot = chk.root if os.path.isdir(os.path.join(chk.root, "opm/input/eclipse/EclipseState/Grid")) else core.REPO
+    gunits = sorted(os.path.relpath(p_, groot) for p_ in _glob.glob(os.path.join(groot, "opm/input/eclipse/EclipseState/Grid/*.cpp"))) + ["opm/io/eclipse/EGrid.cpp"]
+    _lib = {os.path.relpath(u, core.REPO) if os.path.isabs(u) else u for u in core.library_units()}
+    gunits = [u for u in gunits if u in _lib]
+    gx = chk.facts(gunits, files_re=r"^/repo/opm/(input/eclipse/EclipseState/Grid|io/eclipse)/")
+    ijk_callees = set()
+    for f in gx.fns:
+        ps = [(p_.get("n") or "").lower() for p_ in f["params"][:3]]
+        if ps == ["i", "j", "k"] and all(re.search(r"\b(int|size_t|unsigned|long)\b", p_.get("t") or "") for p_ in f["params"][:3]):
+            ijk_callees.add(f["n"])
+    if "getGlobalIndex" not in ijk_callees or len(ijk_callees) < 5:
+        raise core.AnalysisBroken("C13.axis: the (i, j, k) interfaces were not found (%s)" % sorted(ijk_callees)[:8])
+    chk.extra["ijk_interfaces"] = sorted(ijk_callees)
+    EXT = {"getNX": 0, "getNY": 1, "getNZ": 2}
+    n_ax = 0
+    for f in gx.fns:
+        if not f.get("body") or not f["file"].startswith(core.REPO + "/opm/"):
+            continue
+        roles = {}
+        for n in walk(f["body"]):
+            if n["k"] in ("Call", "MCall") and len(n.get("a") or []) >= 3:
+                nm = n.get("m") or (n.get("fn") or "").split("::")[-1]
+                if nm in ijk_callees:
+                    for ax in range(3):
+                        a_ = decast(n["a"][ax])
+                        if a_.get("k") == "Ref" and a_.get("d") in ("Var", "Parm"):
+                            roles.setdefault((a_["n"], a_.get("dl")), set()).add(ax)
+        if not roles:
+            continue
+        ext_locals = {}
+        for n in walk(f["body"]):
+            if n["k"] == "Decl":
+                for v in n["vars"]:
+                    if isinstance(v.get("init"), dict):
+                        i_ = decast(v["init"])
+                        nm_ = (i_.get("m") or (i_.get("fn") or "").split("::")[-1]) if i_.get("k") in ("Call", "MCall") else None
+                        if nm_ in EXT and not (i_.get("a") or []):
+                            ext_locals[(v["n"], v.get("l"))] = EXT[nm_]
+        for n in walk(f["body"]):
+            if n["k"] != "Bin" or n.get("op") not in ("<", "<=", ">", ">=", "==", "!=") or len(n.get("c") or []) != 2:
+                continue
+            for a_, b_ in ((n["c"][0], n["c"][1]), (n["c"][1], n["c"][0])):
+                a_ = decast(a_)
+                if a_.get("k") != "Ref" or (a_.get("n"), a_.get("dl")) not in roles:
+                    continue
+                rs = roles[(a_["n"], a_.get("dl"))]
+                exts = {EXT[x.get("m") or (x.get("fn") or "").split("::")[-1]] for x in walk(b_) if x["k"] in ("Call", "MCall") and (x.get("m") or (x.get("fn") or "").split("::")[-1]) in EXT}
+                exts |= {ext_locals[(x["n"], x.get("dl"))] for x in walk(b_) if x["k"] == "Ref" and (x.get("n"), x.get("dl")) in ext_locals}
+                if len(rs) != 1 or len(exts) != 1:
+                    continue
+                n_ax += 1
+                ax, ex = list(rs)[0], list(exts)[0]
+                key = "%s:%s@%s" % (f["q"].split("::")[-1], a_["n"], show(n)[:40])
+                chk.instance(r_axs, key, sample=dict(function=f["q"], line=n["l"], variable=a_["n"], used_as="IJK"[ax], comparison=show(n)))
+                if ax != ex:
+                    chk.violation(r_axs, key, "%s: `%s` is used as the %s index (argument %d of an (i, j, k) interface) but is compared with the extent of the %s axis in `%s`: on a grid with different extents cells inside the grid are rejected (or cells outside it accepted)" % (f["q"], a_["n"], "IJK"[ax], ax + 1, "IJK"[ex], show(n)), f["file"], n["l"])
 
     # ---- C13.mapunits: the origin of the map axes is scaled with the factor of the MAPUNITS the object remembers
     r_mu = chk.rule("C13.mapunits", "every MapAxes constructor that records a MAPUNITS string (from the deck, from an EGRID file, from its argument) initialises the axes with length_factor(<that unit>): in the block that sets map_units the factor handed to init() is assigned from length_factor, or the constructor delegates with length_factor(mapunits); the deck path and the EGRID path therefore give the same transform", floor=3)
